@@ -60,7 +60,10 @@ fn name(r: &mut Rng) -> Labels {
 
 fn rec(r: &mut Rng, names: &[Labels]) -> Rec {
     let owner = names[r.usize_below(names.len())].clone();
-    let (rtype, fields) = match r.below(6) {
+    let (rtype, fields) = match r.below(9) {
+        6 => (*r.pick(&[t::MB, t::MG, t::MR, t::NS, t::CNAME]), vec![F::Name(names[r.usize_below(names.len())].clone(), Comp::Must)]),
+        7 => (t::NULL, vec![F::Bytes(vec![r.below(2) as u8])]),
+        8 => (t::MX, vec![F::U16(r.below(2) as u16), F::Name(names[r.usize_below(names.len())].clone(), Comp::Must)]),
         0 | 1 => (t::A, vec![F::U32(0x7f00_0001 + r.below(2) as u32)]),
         2 => (t::AAAA, vec![F::U128(1 + r.below(2) as u128)]),
         3 => (t::SRV, vec![F::U16(0), F::U16(0), F::U16(80 + r.below(2) as u16), F::Name(names[r.usize_below(names.len())].clone(), Comp::Never)]),
@@ -121,7 +124,8 @@ pub fn generate(seed: u64, focus: &str) -> History {
                     qtype: match r.below(6) {
                         0 => t::ANY,
                         1 => *r.pick(&[t::AXFR, t::IXFR, t::MAILA, t::MAILB]),
-                        _ => *r.pick(&[t::A, t::AAAA, t::SRV, t::TXT, t::PTR]),
+                        2 if !added.is_empty() => added[r.usize_below(added.len())].rtype,
+                        _ => *r.pick(&[t::A, t::AAAA, t::SRV, t::TXT, t::PTR, t::NULL, t::MB, t::MX]),
                     },
                     qclass: if r.chance(1, 3) { 255 } else { *r.pick(&[1u16, 3]) },
                     unicast: r.chance(1, 3),
